@@ -75,8 +75,10 @@ pub fn oracle_text(run: &mut Run, text: &str, expect: Expect) -> String {
 pub fn case_tokens(run: &mut Run, tokens: Vec<ParserToken>, gen: &str, desc: &str) {
     let line = format!("pstmt {}", tokens_sexp(&tokens));
     let (answer, kind) = run_parser(tokens);
-    if kind == "panic" {
-        run.fail(desc.to_owned(), "panic:parser", "Parser::parse panicked on a token vector".to_owned());
+    // a panic on a vector the tokenizer produced for a text is a C14 failure; on hand-made vectors (token mutations,
+    // vectors without End) it is only a model/implementation disagreement: no text reaches the parser that way
+    if kind == "panic" && !gen.starts_with("tok-") {
+        run.fail(desc.to_owned(), "panic:parser", "Parser::parse panicked on the token vector of this text".to_owned());
     }
     run.count(&format!("result:{}", kind));
     run.case_with_desc(line, answer, format!("{}:{}", gen, kind), desc.to_owned());
